@@ -206,6 +206,8 @@ pub struct ThreadSt {
 	pub prio: u32,
 	/// raw ops issued by this thread since the end of setup
 	pub raw_seq: u32,
+	/// releases by this thread that the audit rejected (not held / wrong mode)
+	pub bad_releases: u32,
 }
 
 #[derive(Clone, Debug)]
@@ -304,6 +306,10 @@ pub struct Inner {
 	pub pois: PoisModel,
 	pub pct_points: Vec<u64>,
 	pub deadlock_witness: String,
+	/// Solo + writer-preferring policy: as soon as the solo thread is granted shared access to
+	/// a rwlock, a phantom WRITER queues behind it (and leaves when the lock becomes free) -
+	/// the state in which parking_lot reports is_locked_exclusive() and refuses new readers
+	pub writer_queues: bool,
 }
 
 pub struct World {
@@ -366,6 +372,7 @@ impl World {
 				ops: Vec::new(),
 				prio: rng.next_u32(),
 				raw_seq: 0,
+				bad_releases: 0,
 			});
 		}
 		let mut pct_points = Vec::new();
@@ -403,6 +410,7 @@ impl World {
 				call_counter: 0,
 				group: vec![0],
 				fault_info: None,
+				writer_queues: false,
 				pois: PoisModel::default(),
 				pct_points,
 				deadlock_witness: String::new(),
@@ -522,6 +530,14 @@ impl World {
 			}
 			l.shared.retain(|t| *t != tid);
 		}
+	}
+
+	pub fn set_writer_queues(&self, on: bool) {
+		self.g().writer_queues = on;
+	}
+
+	pub fn bad_releases_of(&self, tid: Tid) -> u32 {
+		self.g().threads[tid as usize].bad_releases
 	}
 
 	pub fn raw_seq(&self, tid: Tid) -> u32 {
@@ -684,6 +700,12 @@ impl World {
 				}
 			}
 		}
+		if fault_phase.is_some() && std::thread::panicking() && g.locks[lock as usize].persistent_fault & pbit == 0 {
+			// a second panic inside a destructor that runs during an unwind cannot be survived
+			// by any Rust program: one-shot faults are not injected there (the plan entry stays
+			// consumed)
+			fault_phase = None;
+		}
 		if let Some(ph) = fault_phase {
 			if g.fault_info.is_none() {
 				let l = &g.locks[lock as usize];
@@ -727,6 +749,7 @@ impl World {
 			Op::Try => {
 				if grantable(&g, tid, lock, mode) {
 					grant(&mut g, tid, lock, mode);
+					queue_phantom_writer(&mut g, tid, lock, mode);
 					log(&mut g, tid, EvKind::TryOk, lock, mode as u32);
 					true
 				} else {
@@ -737,6 +760,7 @@ impl World {
 			}
 			Op::Lock => {
 				g = self.blocking_acquire(tid, lock, mode, g);
+				queue_phantom_writer(&mut g, tid, lock, mode);
 				true
 			}
 		};
@@ -1299,6 +1323,17 @@ fn grantable(g: &Inner, tid: Tid, lock: LockId, mode: Mode) -> bool {
 	}
 }
 
+const QUEUED_WRITER: Tid = PHANTOM + 777;
+
+fn queue_phantom_writer(g: &mut Inner, tid: Tid, lock: LockId, mode: Mode) {
+	if g.writer_queues && g.exec == ExecMode::Solo && g.policy == Policy::WriterPref && mode == Mode::Shared && tid < PHANTOM {
+		let l = &mut g.locks[lock as usize];
+		if l.is_rw && !l.waiters.iter().any(|(t, _)| *t == QUEUED_WRITER) {
+			l.waiters.push((QUEUED_WRITER, Mode::Excl));
+		}
+	}
+}
+
 fn grant(g: &mut Inner, tid: Tid, lock: LockId, mode: Mode) {
 	let l = &mut g.locks[lock as usize];
 	l.n_acq += 1;
@@ -1339,11 +1374,18 @@ fn release(g: &mut Inner, tid: Tid, lock: LockId, mode: Mode) {
 	};
 	if ok {
 		l.n_rel += 1;
+		// the phantom writer queued behind the solo thread's shared hold leaves with that hold
+		if !l.shared.iter().any(|t| *t < PHANTOM) {
+			l.waiters.retain(|(t, _)| *t != QUEUED_WRITER);
+		}
 		if !setup {
 			log(g, tid, EvKind::Unlock, lock, mode as u32);
 		}
 	} else {
 		l.bad_releases += 1;
+		if (tid as usize) < g.threads.len() {
+			g.threads[tid as usize].bad_releases += 1;
+		}
 		let d = format!(
 			"thread {tid} releases lock {lock} ({}) but the owner table says excl={:?} shared={:?}",
 			mode.ch(),
